@@ -50,7 +50,9 @@ def flattenToIRI (i : Item) : Item :=
 def dedupKey (i : Item) : Option Str :=
   match i with
   | .nil => none
-  | _ => if isObjectM i then some (linkOf i) else if isLinkM i then some (linkOf i) else none
+  | _ =>
+    -- an entry without an id (or link) names nobody: the loop leaves it alone (as repaired)
+    if (isObjectM i || isLinkM i) && !(linkOf i).isEmpty then some (linkOf i) else none
 
 def iriEqv (a b : Str) : Bool := IRI.equals IRI.parseOpt a b false
 
